@@ -9,7 +9,8 @@ import (
 // C01: reads return the latest write — the DB behaves as an ordered map.
 func TestC01(t *testing.T) {
 	p := &dbm.Profile{
-		MinOps: 10, MaxOps: 250, DetPercent: 50,
+		StrictVariants: true,
+		MinOps:         10, MaxOps: 250, DetPercent: 50,
 		W: map[string]int{"put": 30, "del": 10, "batch": 10, "bigbatch": 2, "get": 8, "compact": 4,
 			"reopen": 3, "idle": 3, "snap": 2, "snaprel": 1, "scan": 1},
 	}
